@@ -44,10 +44,20 @@ def tensor4(c):
 
 
 def _is_cleanup(s):
-    """`X[<boolean mask built from X / X.max()>] = 0.0`: numerical clean-up of entries that are tiny relative to the largest"""
-    if isinstance(s, ast.Assign) and len(s.targets) == 1 and isinstance(s.targets[0], ast.Subscript) and isinstance(s.value, ast.Constant) and s.value.value == 0.0:
-        t = norm(s.targets[0].slice)
-        return '.max()' in t and ('isclose' in t or '<' in t)
+    """statements of a round-off clean-up, skipped when a function is interpreted on *symbolic* tensors (generic values are never "tiny"; the clean-up itself is judged on
+    concrete tensors by cleanup_keeps_signs): a store of zero through a boolean mask, and the locals that only build that mask (a ratio to `.max()`, a comparison of it)"""
+    if not (isinstance(s, ast.Assign) and len(s.targets) == 1):
+        return False
+    t = s.targets[0]
+    if isinstance(t, ast.Subscript) and isinstance(s.value, ast.Constant) and s.value.value == 0:
+        sl = t.slice
+        return isinstance(sl, (ast.Name, ast.Compare, ast.Call, ast.BinOp, ast.BoolOp, ast.UnaryOp))       # a mask, not an integer / slice position
+    if isinstance(t, ast.Name):
+        v = norm(s.value)
+        if '.max()' in v and isinstance(s.value, ast.BinOp) and isinstance(s.value.op, ast.Div):
+            return True                                                                                    # ratio = C / C.max()
+        if any(isinstance(x, ast.Compare) for x in ast.walk(s.value)) and ('tol' in v or '1e-' in v) and not any(isinstance(x, ast.IfExp) for x in ast.walk(s.value)):
+            return True                                                                                    # negligible = (ratio < tol) & (ratio > -tol)
     return False
 
 
